@@ -151,7 +151,7 @@ Proof. exact push_closed. Qed.
 Print Assumptions C09_push_closed.
 
 (** TRANSPORT FAULTS (one response of the exchange lost: connection abort, or HTTP/2 stream reset which makes
-    fetch.Fetch retry): whatever is lost, after fetch the local store is Closed, nothing is lost and every
+    fetch.Fetch retry; or PERSISTENT: every packfile answer cut inside its last object / lost on every attempt): whatever is lost, after fetch the local store is Closed, nothing is lost and every
     created or moved ref has its whole history; a session that does not reach "done" writes no ref
     (fetch_f returns the refs untouched in mode 1) *)
 Theorem C09_fetch_faults : forall g local remote specs gforce depth k p tn f,
@@ -165,6 +165,22 @@ Theorem C09_push_faults : forall g local remote items gforce p f,
   push_post g remote (snd (push_f g local remote items gforce p f)).
 Proof. exact push_f_closed. Qed.
 Print Assumptions C09_push_faults.
+
+(** a push from a SHALLOW local repository: if a commit that would have to travel lacks its table locally, nothing
+    is sent and the remote is untouched (so "push succeeded" implies every sent commit carried its table); with
+    the source remote of the shallow commits gone the code panics instead of erroring ([push_k], outcome 2) -
+    either way the remote stays Closed with resolving refs *)
+Theorem C09_push_refuses_shallow : forall g local remote items gforce p,
+  push_shallow_refused g local remote items gforce = true ->
+  push g local remote items gforce p = (1, remote).
+Proof. exact push_refuses_shallow. Qed.
+Print Assumptions C09_push_refuses_shallow.
+
+Theorem C09_push_shallow_closed : forall known g local remote items gforce p f,
+  Closed g (o_commits (r_objs remote)) -> RefsResolve remote ->
+  push_post g remote (snd (push_k known g local remote items gforce p f)).
+Proof. exact push_k_closed. Qed.
+Print Assumptions C09_push_shallow_closed.
 
 (** session bookkeeping: popHaves offers only commits whose table is stored, at most k per round, exactly k
     unless the queue ran dry; the commons a negotiation ends with are commits the server knows that the
